@@ -78,6 +78,7 @@ func init() {
 		parallelFor(ctx, cnt(15000, 150000), true, col, func(o *Oracle, i int) {
 			r := NewRng(ctx.Seed, "c02", i)
 			c := canonCase{boolCase: genBoolCase(r, ctx.Tier), Reverse: r.Chance(0.3), Preserve: r.Bool()}
+			maybeGlue(r, &c.boolCase)
 			ok, kind, detail, resp := c02Check(o, c)
 			col.Eval(fmt.Sprint(c), statOf(resp, "faces") >= 2, "ct="+ctName(c.CT), "fr="+frName(c.FR), fmt.Sprintf("reverse=%v", c.Reverse), fmt.Sprintf("preserve=%v", c.Preserve))
 			col.AddN("faces_judged", statOf(resp, "faces"))
